@@ -135,6 +135,7 @@ func doGen(id string, p Prop, tier string, seed int64, out string, nshards int) 
 			} else {
 				e["first"] = false
 			}
+			checkNarrow(e, "")
 			if err := enc.Encode(e); err != nil {
 				die("encode: %v", err)
 			}
@@ -155,6 +156,49 @@ func doGen(id string, p Prop, tier string, seed int64, out string, nshards int) 
 		closers[k].Close()
 	}
 	writeJSON(filepath.Join(out, "summary.json"), sum)
+}
+
+// checkNarrow aborts if an event carries an integer that TLC (32-bit) would
+// silently wrap when it parses the JSON; wide values must be digit arrays (W64).
+func checkNarrow(v interface{}, path string) {
+	switch t := v.(type) {
+	case Ev:
+		for k, x := range t {
+			checkNarrow(x, path+"."+k)
+		}
+	case map[string]interface{}:
+		for k, x := range t {
+			checkNarrow(x, path+"."+k)
+		}
+	case []interface{}:
+		for _, x := range t {
+			checkNarrow(x, path+"[]")
+		}
+	case []Ev:
+		for _, x := range t {
+			checkNarrow(x, path+"[]")
+		}
+	case []int:
+		for _, x := range t {
+			checkNarrow(x, path+"[]")
+		}
+	case int:
+		if t > 2147483647 || t < -2147483648 {
+			die("event field %s = %d does not fit TLC's 32-bit integers", path, t)
+		}
+	case int64:
+		checkNarrow(int(t), path)
+	case uint64:
+		if t > 2147483647 {
+			die("event field %s = %d does not fit TLC's 32-bit integers", path, t)
+		}
+	case uint32:
+		checkNarrow(int(t), path)
+	case float64:
+		if t > 2147483647 || t < -2147483648 {
+			die("event field %s = %v does not fit TLC's 32-bit integers", path, t)
+		}
+	}
 }
 
 func readEvents(path string) []Ev {
